@@ -447,10 +447,30 @@ class SQLDataHolder(DataHolder):
             )
             stmt_3 = sa.delete(NodeModel).where(NodeModel.job_id.in_(stmt_2))
             res = session.execute(stmt_3)
+            self._remove_associations_of_removed_nodes(session)
             session.commit()
             logging.getLogger().info(
                 f"Number of nodes with inconsistent jobs: {res.rowcount}"
             )
+
+    @staticmethod
+    def _remove_associations_of_removed_nodes(session: Session) -> None:
+        """Method to remove parent-child associations whose child node has
+        been removed, so that re-ingesting the removed spans does not clash
+        with the left over association rows.
+
+        :param session: The session the removal is part of
+        :type session: :class:`Session`
+        """
+        session.execute(
+            sa.delete(NODE_ASSOCIATION).where(
+                not_(
+                    NODE_ASSOCIATION.c.child_id.in_(
+                        sa.select(NodeModel.event_id)
+                    )
+                )
+            )
+        )
 
     def remove_jobs_outside_of_time_window(self) -> None:
         """Remove jobs within the buffer."""
@@ -477,6 +497,7 @@ class SQLDataHolder(DataHolder):
                 not_(NodeModel.job_id.in_(stmt))
             )
             res = session.execute(stmt_2)
+            self._remove_associations_of_removed_nodes(session)
             session.commit()
             logging.getLogger().info(
                 f"Number of events outside of time window: {res.rowcount}"
